@@ -42,6 +42,11 @@ Let(v, s, b)  == [k |-> "let", v |-> v, s |-> s, b |-> b]
 Some(v, s, c) == [k |-> "some", v |-> v, s |-> s, c |-> c]
 Every(v, s, c) == [k |-> "every", v |-> v, s |-> s, c |-> c]
 Call(v, b, a) == [k |-> "call", v |-> v, b |-> b, a |-> a]
+(* a function item that ESCAPES the scope of its definition and is called where a captured name is re-bound:   *)
+(*   let $f := function() { b } return (let $v := s return $f())          - the body sees the DEFINITION env   *)
+Clos(v, b, s) == [k |-> "clos", v |-> v, b |-> b, s |-> s]
+(*   (for $v in s return function() { b }) ! .()   - one closure per iteration, all called after the loop      *)
+ForClos(v, s, b) == [k |-> "forclos", v |-> v, s |-> s, b |-> b]
 
 (* Ill-typed programs (a non-singleton or a boolean operand of + or gt) evaluate to ERR, which
    propagates strictly; they are excluded from the replay by the state constraint WellTyped:
@@ -82,6 +87,11 @@ Eval(x, env) ==
     [] x.k = "call" -> \* the closure captures env; the parameter shadows it inside the body only
                        LET a == Eval(x.a, env) IN
                          IF a = ERR THEN ERR ELSE Eval(x.b, [env EXCEPT ![x.v] = a])
+    [] x.k = "clos" -> \* the rebinding of x.v at the place of the CALL is invisible to the body
+                       LET a == Eval(x.s, env) IN
+                         IF a = ERR THEN ERR ELSE Eval(x.b, env)
+    [] x.k = "forclos" -> \* each closure keeps the binding of its own iteration
+                       LET a == Eval(x.s, env) IN IF a = ERR THEN ERR ELSE FlatMap(x.b, env, x.v, a)
 
 ---------------------------------------------------------------------------
 Leaves == {Lit(1), Lit(2), Var("x"), Var("y")}
@@ -96,6 +106,8 @@ Seeds == Leaves \cup {Add(a, b) : a \in {Var("x"), Var("y")}, b \in Leaves}
                \cup {Let(v, s, b) : v \in Vars, s \in {Cat(Lit(1), Lit(2)), Lit(5)}, b \in Bodies}
                \cup {Call(v, b, a) : v \in Vars, b \in Bodies, a \in {Lit(2), Var("y")}}
                \cup {For2("x", Cat(Lit(1), Lit(2)), "y", Cat(Var("x"), Lit(7)), b) : b \in Bodies}
+               \cup {Clos(v, b, Lit(7)) : v \in Vars, b \in Bodies}
+               \cup {ForClos(v, Cat(Lit(1), Lit(2)), b) : v \in Vars, b \in Bodies}
 
 Init == e \in Seeds /\ val = Eval(e, Env0)
 
@@ -106,6 +118,8 @@ WrapFor2(s, t)   == Set(For2("x", s, "y", t, e))
 WrapFor2Dep      == Set(For2("x", Cat(Lit(1), Lit(2)), "y", Cat(Var("x"), Lit(7)), e))   \* inner range depends on outer variable
 WrapLet(v, s)    == Set(Let(v, s, e))
 WrapCall(v, a)   == Set(Call(v, e, a))
+WrapClos(v, s)   == Set(Clos(v, e, s))
+WrapForClos(v, s) == Set(ForClos(v, s, e))
 (* e becomes the RANGE / value expression of a binder whose body reads a variable *)
 AsRange(v, b)    == Set(For(v, e, b))
 AsLetValue(v, b) == Set(Let(v, e, b))
@@ -120,6 +134,8 @@ Next == \/ \E v \in Vars, s \in Sources : WrapFor(v, s)
         \/ WrapFor2Dep
         \/ \E v \in Vars, s \in Sources : WrapLet(v, s)
         \/ \E v \in Vars, a \in Leaves : WrapCall(v, a)
+        \/ \E v \in Vars, s \in {Lit(7), Cat(Lit(1), Lit(2))} : WrapClos(v, s)
+        \/ \E v \in Vars, s \in {Cat(Lit(1), Lit(2)), Var("y")} : WrapForClos(v, s)
         \/ \E v \in Vars, b \in {Var("x"), Var("y"), Add(Var("x"), Var("y"))} : AsRange(v, b)
         \/ \E v \in Vars, b \in {Var("x"), Var("y"), Cat(Var("x"), Var("y"))} : AsLetValue(v, b)
         \/ \E v \in Vars, b \in {Var("x"), Var("y"), Add(Var("x"), Var("y"))} : AsArg(v, b)
@@ -145,8 +161,10 @@ NoLeak == \A v \in Vars :
 (* let is substitution-by-value; a one-item for is a let *)
 LetIsFor1 == \A v \in Vars : W(Let(v, Lit(7), e)) = W(For(v, Lit(7), e))
 CallIsLet == \A v \in Vars, a \in Leaves : W(Call(v, e, a)) = W(Let(v, a, e))
+ClosIsBody == \A v \in Vars : W(Clos(v, e, Lit(7))) = W(e)
+ForClosIsFor == \A v \in Vars : W(ForClos(v, Cat(Lit(1), Lit(2)), e)) = W(For(v, Cat(Lit(1), Lit(2)), e))
 For2IsNested == W(For2("x", Cat(Lit(1), Lit(2)), "y", Cat(Var("x"), Lit(7)), e))
                   = W(For("x", Cat(Lit(1), Lit(2)), For("y", Cat(Var("x"), Lit(7)), e)))
 (* TLC evaluates invariants also on successor states that the constraints then discard: guard *)
-Laws == (TLCGet("level") <= MaxDepth /\ val # ERR) => (ValOK /\ NoLeak /\ LetIsFor1 /\ CallIsLet /\ For2IsNested)
+Laws == (TLCGet("level") <= MaxDepth /\ val # ERR) => (ValOK /\ NoLeak /\ LetIsFor1 /\ CallIsLet /\ For2IsNested /\ ClosIsBody /\ ForClosIsFor)
 =============================================================================
